@@ -200,7 +200,7 @@ func sibTables(fn *ssa.Function, n sibNorm, maxRuns int) (map[string][]sibRec, s
 	for _, ct := range cuts {
 		mk := func() *e6Interp {
 			return &e6Interp{fn: fn, PureCall: func(f *types.Func) bool { return sibPure != nil && sibPure(f) },
-				Inline: func(f *ssa.Function) bool { return sibInline != nil && sibInline(f) }, OuterName: func(v ssa.Value) string { return sibOuter(v, 0) }, MaxAtoms: 20, HoistedLoads: true}
+				Inline: func(f *ssa.Function) bool { return sibInline != nil && sibInline(f) }, OuterName: func(v ssa.Value) string { return sibOuter(v, 0) }, MaxAtoms: 20, HoistedLoads: true, CanonCmp: true}
 		}
 		outs, why := e6Enumerate(mk, ct.b, nil, headers, maxRuns)
 		if why != "" {
